@@ -46,6 +46,11 @@ func SignJSON(signingName string, keyID KeyID, privateKey ed25519.PrivateKey, me
 	if !utf8.Valid(message) {
 		return nil, fmt.Errorf("gomatrixserverlib: cannot sign JSON that is not valid UTF-8")
 	}
+	// An escape of half a surrogate pair is dropped from the canonical form:
+	// the signature would not cover it.
+	if hasUnpairedSurrogateEscape(message) {
+		return nil, fmt.Errorf("gomatrixserverlib: cannot sign JSON with an unpaired surrogate escape")
+	}
 	// The same goes for the name and the key ID the signature is filed under:
 	// they become JSON member names.
 	if !utf8.ValidString(signingName) || !utf8.ValidString(string(keyID)) {
@@ -149,6 +154,11 @@ func VerifyJSON(signingName string, keyID KeyID, publicKey ed25519.PublicKey, me
 	// no duplicate to the check above and the same member to the decoder below.
 	if !utf8.Valid(message) {
 		return fmt.Errorf("gomatrixserverlib: JSON is not valid UTF-8")
+	}
+	// ... and an escape of half a surrogate pair is dropped from the canonical
+	// form: a text with one inserted would verify like the text that was signed.
+	if hasUnpairedSurrogateEscape(message) {
+		return fmt.Errorf("gomatrixserverlib: JSON has an unpaired surrogate escape")
 	}
 	// Unpack the top-level key of the JSON object without unpacking the contents of the keys.
 	// This allows us to add and remove the top-level keys from the JSON object.
